@@ -313,6 +313,10 @@ impl GlobalCollector {
                 .map(|s| s.collect_token.iter().map(|i| i.collect_id).collect())
                 .collect(),
         });
+        #[cfg(fastrace_verif)]
+        crate::verif::fire(|| crate::verif::Point::Batch {
+            sets: submit_spans.iter().map(verif_batch_set).collect(),
+        });
 
         // If the reporter is not set, global collectior only clears the channel and then dismiss
         // all messages.
@@ -418,6 +422,11 @@ impl GlobalCollector {
             );
         }
 
+        #[cfg(fastrace_verif)]
+        crate::verif::fire(|| crate::verif::Point::AfterProcess {
+            active: verif_active_stats(&self.active_collectors),
+        });
+
         self.reporter.as_mut().unwrap().report(committed_records);
 
         #[cfg(fastrace_verif)]
@@ -443,6 +452,49 @@ fn verif_command_point(cmd: &CollectCommand, forced: bool) {
             forced,
         }
     });
+}
+
+#[cfg(fastrace_verif)]
+fn verif_batch_set(cmd: &SubmitSpans) -> crate::verif::BatchSet {
+    let raw = |s: &RawSpan, single: bool| {
+        let kind = match s.raw_kind {
+            RawKind::Span => 0,
+            RawKind::Event => 1,
+            RawKind::Properties => 2,
+        };
+        let parent = if single { 0 } else { s.parent_id.0 };
+        let props = s.properties.as_ref().map(|p| p.len()).unwrap_or(0);
+        (s.id.0, parent, kind, props)
+    };
+    let raws = match &cmd.spans {
+        SpanSet::Span(s) => vec![raw(s, true)],
+        SpanSet::LocalSpansInner(l) => l.spans.iter().map(|s| raw(s, false)).collect(),
+        SpanSet::SharedLocalSpans(l) => l.spans.iter().map(|s| raw(s, false)).collect(),
+    };
+    crate::verif::BatchSet {
+        items: cmd
+            .collect_token
+            .iter()
+            .map(|i| (i.collect_id, i.trace_id.0, i.parent_id.0))
+            .collect(),
+        raws,
+    }
+}
+
+#[cfg(fastrace_verif)]
+fn verif_active_stats(
+    active_collectors: &HashMap<usize, ActiveCollector>,
+) -> Vec<crate::verif::ActiveStats> {
+    let mut active: Vec<_> = active_collectors
+        .iter()
+        .map(|(id, a)| crate::verif::ActiveStats {
+            collect_id: *id,
+            buffered_sets: a.span_collections.len(),
+            danglings: a.danglings.values().map(|v| v.len()).sum(),
+        })
+        .collect();
+    active.sort_by_key(|a| a.collect_id);
+    active
 }
 
 #[cfg(fastrace_verif)]
